@@ -143,7 +143,9 @@ static Case gen_C16(const GenCtx &ctx) {
                                           {3, "mzd_echelonize_m4ri"}, {2, "mzd_echelonize"}});
   c.sets("op", r);
   int big = std::max(ctx.scale, 700);
-  auto bigdim = [&]() { return g::wpick<int>({{3, g::rng(513, big)}, {1, 512 + g::rng(1, 3)}, {1, 128 * g::rng(4, std::max(4, big / 128)) + g::pick<int>({0, 1, 63, 64, 127})}}); };
+  // the multi-core front end splits at multiples of 128 (2 x 64): exact multiples and every remainder pattern across the
+  // three dimensions (remainder in m only, in l only, ...) get their own weight
+  auto bigdim = [&]() { return g::wpick<int>({{3, g::rng(513, big)}, {1, 512 + g::rng(1, 3)}, {2, 128 * g::rng(4, std::max(4, big / 128)) + g::pick<int>({0, 0, 0, 1, 63, 64, 127})}}); };
   if (r == "mzd_echelonize_m4ri" || r == "mzd_echelonize") {
     int m = bigdim(), n = g::wpick<int>({{2, bigdim()}, {1, g::rng(1, 400)}});
     c.set("m", m).set("n", n).set("full", g::rng(0, 1));
@@ -151,7 +153,8 @@ static Case gen_C16(const GenCtx &ctx) {
     g::rankpat(c, "A", m, n);
     c.set("topk", 0);
   } else {
-    int m = bigdim(), l = g::wpick<int>({{2, bigdim()}, {1, g::rng(129, 400)}}), n = g::wpick<int>({{2, bigdim()}, {1, g::rng(129, 400)}});
+    int m = bigdim(), l = g::wpick<int>({{2, bigdim()}, {1, g::rng(129, 400)}, {1, 128 * g::rng(1, 4)}}),
+        n = g::wpick<int>({{2, bigdim()}, {1, g::rng(129, 400)}, {1, 128 * g::rng(1, 4)}});
     c.set("m", m).set("l", l).set("n", n);
     if (r == "mzd_mul_m4rm") c.set("k", g::rng(0, 8));
     else c.set("cutoff", g::pick<int>({0, 64, 128, 192, 256, 512}));
